@@ -193,10 +193,9 @@ class IdentityTable(Clauses):
                 I.violation(self.PROP + ".nf", "%s/denotes-different-product/%s" % (self.PROP, label),
                             {"expected": M.nf_str(m), "got": M.nf_str(got)})
                 return "VIOLATED"
-            a, b = float(M.p_value(got[0])), float(M.p_value(m[0]))
-            if abs(a - b) > 1e-9 * max(abs(a), abs(b)):
+            if not M.p_close(got[0], m[0]):
                 I.violation(self.PROP + ".scale", "%s/mixed-base-scale/%s" % (self.PROP, label),
-                            {"expected": b, "got": a, "nf": M.nf_str(m)})
+                            {"expected": M.nf_str(m), "got": M.nf_str(got)})
                 return "VIOLATED"
             return "ok"
         I.count(self.PROP + ".identity.checked")
@@ -268,14 +267,10 @@ class IdentityTable(Clauses):
                     self.tainted.add(op["id"])
             if tainted or not single_base_int(mval):
                 I.count(self.PROP + ".scale.checked")
-                try:
-                    a = float(value.quantify())
-                except OverflowError:
-                    return out
-                b = float(M.p_value(mval))
-                if abs(a - b) > 1e-9 * max(abs(a), abs(b)):
+                got_p = M.p_norm([(value.base, Fraction(value.exponent))])
+                if not M.p_close(got_p, mval):
                     I.violation(self.PROP + ".scale", "%s/mixed-base-scale/%s" % (self.PROP, label),
-                                {"expected": b, "got": a})
+                                {"expected": str(mval), "got": str(got_p)})
                     out[self.PROP + ".scale"] = "VIOLATED"
             else:
                 I.count(self.PROP + ".identity.checked")
@@ -475,8 +470,7 @@ class C15Clauses(IdentityTable):
                 elif mval is not None:
                     # JSON / composite carry str(unit): the decoded unit must denote the same product
                     got = I.nf_of(value.unit)
-                    same = got is not None and got[1] == mval[1] and abs(
-                        float(M.p_value(got[0])) - float(M.p_value(mval[0]))) <= 1e-9 * abs(float(M.p_value(mval[0])))
+                    same = got is not None and got[1] == mval[1] and M.p_close(got[0], mval[0])
                     if not same and got is not None:
                         # the deliberate kg case: an equal named unit is acceptable
                         same = self.equal_size(got, mval)
